@@ -140,11 +140,18 @@ CHECKS = {
         "evaluates (vm_compute, lifted by forallb_forall, bound in the statement) that every transmitted value is within one step (+2^-20 rounding margin) "
         "of the exact rational transfer function, end stops and rest value are exact, the right controller/side is addressed (C06_grid_value) and the "
         "value is monotone in the raw position over all pairs (C06_grid_monotone); pitch-bend centre is 8192 (C06_pitch_bend_centre); the original "
-        "reciprocal rescale and truncation are refuted (D9, D10, fixed in /repo). Partial: 16-bit/10-bit ranges and deadzones off the grid are covered "
-        "by the correspondence (edges, deadzone edges, samples; thorough: deadzones k/100), not by a theorem. Tie to /repo: one real Device per "
-        "configuration swept up/down over the axis range; the same monitor function the theorems use runs in coqc on the implementation's bytes.",
+        "reciprocal rescale and truncation are refuted (D9, D10, fixed in /repo). GENERAL theorems (Flocq real-number semantics, no evaluation): for every "
+        "axis range -2^31 <= min <= 0 < max < 2^31, every finite deadzone 0 <= dz <= 1-2^-10, every raw value in range and every flip / kind: the shaped "
+        "position is finite, in [-1,1], monotone in the raw value and within 2^-39 of the exact real transfer function (C06_general_range / _monotone / "
+        "_accuracy), the transmitted integer is in 0..127 / 0..16383, within 1+2^-20 of the exact scaled value and monotone (C06_general, "
+        "C06_general_tx_monotone, C06_general_encoding*); both end stops are exact for every deadzone in [0,1) (C06_endstop_exact, C06_endstop_min_exact, "
+        "C06_endstop_min_centred) and inside the deadzone exactly the rest value is sent (C06_deadzone_rest, C06_zero_is_rest). Partial: the general "
+        "theorems stop at the sample handed to the device model and use the spec over R (same formulas as the rational spec of the grid theorems and the "
+        "monitor); deadzones in (1-2^-10,1) and non-finite ones are covered by the correspondence only. Tie to /repo: one real Device per "
+        "configuration swept up/down over the axis range with random jumps; the same monitor function the grid theorems use runs in coqc on the "
+        "implementation's bytes, and an event that transmits nothing must leave the receiver with a value that is right for the new position.",
    note="Trusted: Coq kernel + VM; Flocq (axioms of the standard library's Reals via Flocq: ClassicalDedekindReals.sig_forall_dec, sig_not_dec, FunctionalExtensionality.functional_extensionality_dep, Classical_Prop.classic - as printed by Print Assumptions); amd64 float->int conversion and absence of FMA as modelled; hand-written model.",
-   technique="Coq proof by kernel evaluation of a bit-exact Flocq model over the property's finite grid + bit-exact differential correspondence",
+   technique="Coq proof: general Flocq (real-number) theorems for every int32 range and deadzone + kernel evaluation of the bit-exact model over the property's finite grid + bit-exact differential correspondence",
    design="§5 C06"),
  "C07": dict(
    text="Proof: Coq theorems over ARBITRARY samples (hence arbitrary float positions, exact centre and direct jumps across the centre): for every "
